@@ -49,3 +49,37 @@ proof! {
         std::mem::forget(v);
     }
 }
+
+
+proof! {
+    //@ props=C18,C09 tier=quick bounds=history:one-finished-top-level-encode-that-registered-a-string(V3-header)+one-object-offer,then-a-new-context:string-and-object-numbering-start-at-1-again cap=900
+    fn c18_numbering_restarts() unwind(6) {
+        use desert_core::serializer::{StoreRefResult, StoreStringResult};
+        use desert_core::SerializationContext;
+        // first call: a record whose header registers the removed field name "b" as string 1
+        let v = V3 { a: sym::u8_(), c: sym::u8_() };
+        match desert_core::serialize(&v, Vec::new()) { Ok(o) => std::mem::forget(o), Err(e) => { std::mem::forget(e); assert!(false); } }
+        // ... and a stream that tracked one object
+        let obj: &'static u8 = Box::leak(Box::new(5u8));
+        let mut first = SerializationContext::new(Vec::new());
+        match first.store_ref_or_object(obj) { Ok(is_new) => assert!(is_new), Err(e) => { std::mem::forget(e); assert!(false); } }
+        let out = first.into_output();
+        std::mem::forget(out);
+        // second call: a fresh stream numbers strings and objects from 1 again
+        let mut second = SerializationContext::new(Vec::new());
+        match second.state_mut().store_string("q".to_string()) {
+            StoreStringResult::StringIsNew { new_id, value } => {
+                assert!(new_id.0 == 1, "string numbering did not restart with the new call");
+                std::mem::forget(value);
+            }
+            StoreStringResult::StringAlreadyStored { .. } => assert!(false, "a string of an earlier call is still known"),
+        }
+        let other: &'static u8 = Box::leak(Box::new(6u8));
+        match second.state_mut().store_ref(other) {
+            StoreRefResult::RefIsNew { new_id, .. } => assert!(new_id.0 == 1, "object numbering did not restart with the new call"),
+            StoreRefResult::RefAlreadyStored { .. } => assert!(false, "an object of an earlier call is still known"),
+        }
+        cover!(true);
+        std::mem::forget(second);
+    }
+}
